@@ -710,9 +710,10 @@ htp_status_t htp_mpart_part_handle_data(htp_multipart_part_t *part, const unsign
                             return HTP_ERROR;
                         }
 
-                        mode_t previous_mask = umask(S_IXUSR | S_IRWXG | S_IRWXO);
+                        // mkstemp() creates the file with mode 0600 (POSIX.1-2008); the
+                        // process-wide umask is left alone: changing and restoring it is
+                        // not safe when other threads do the same.
                         part->file->fd = mkstemp(part->file->tmpname);
-                        umask(previous_mask);
 
                         if (part->file->fd < 0) {
                             bstr_free(line);
